@@ -466,10 +466,70 @@ def c05_shared_classify(line, res):
                            "shared" if shared else "own", "+eol" if int(f.get("q0", "0")) >= 65000 else "")
 
 
+
+# kind "pipeline_arms": the exchange enters its select with BOTH arms ready.  History = a short quiescent prefix, then
+#   S<cid>:l (the Write puts the query on the wire but returns late), R<k>.<mark> (the server answers: the read loop
+#   delivers the reply into the exchange's channel), X|Y (the connection is closed: c.ctx done), U<k> (Write returns:
+#   select with the reply arm AND the connection arm ready; Go picks at random).  The model gives both outcomes
+#   (Net/Pipeline.v pl_arms_outcomes); whichever arm is taken, a returned message carries the CALLER's id.
+def c05_arms_gen(rng, tier):
+    out = []
+    n = budget(tier, 60, 1500)
+    for net in ("tcp", "udp"):
+        for i in range(n):
+            q0 = 0 if rng.random() < 0.6 else rng.randrange(1, 60000)
+            pre = _steer(rng, q0, rng.choice([1, 2, 4, 8]), close_p=0.0, garbage_p=0.0) if rng.random() < 0.7 else []
+            k = len([e for e in pre if e[0] == "S"])
+            r = rng.random()
+            cid = rng.randrange(256, 65536) if r < 0.8 else rng.choice([q0 + k + 1, 65535, 300, 0x0100])
+            cid = min(65535, cid)
+            ev = pre + ["S%d:l" % cid, "R%d.%d" % (k, 5000 + i), rng.choice(["X", "X", "Y"]), "U%d" % k]
+            out.append("a%s%d net=%s q0=%d ev=%s" % (net[0], i, net, q0, ",".join(ev)))
+    return out
+
+
+def c05_arms_compare(ir, mr):
+    a, b = gens.fields(ir), gens.fields(mr)
+    if not ir.startswith("o=") or "alt" not in b:
+        return ir == mr
+    if (a.get("w"), a.get("closed"), a.get("reuse")) != (b.get("w"), b.get("closed"), b.get("reuse")):
+        return False
+    oi, o1, o2 = a["o"].split(","), b["o"].split(","), b["alt"].split(",")
+    return len(oi) == len(o1) == len(o2) and all(x in (y, z) for x, y, z in zip(oi, o1, o2))
+
+
+
+# kind "pipeline_retry" (oracle only, harness/cmd/implrun/c05d.go): the reused connection dies after the server read
+#   the query; the transport's retry on a fresh connection must come back with the CALLER's id and its own answer
+def c05_retry_gen(rng, tier):
+    out = []
+    for i in range(budget(tier, 24, 400)):
+        q0 = 0 if rng.random() < 0.6 else rng.randrange(1, 60000)
+        r = rng.random()
+        cid = rng.randrange(256, 65536) if r < 0.8 else rng.choice([65535, 0x0100, 0x8000, 12345])
+        out.append("rt%d net=%s q0=%d warm=%d cid=%d seed=%d" % (
+            i, rng.choice(["tcp", "udp"]), q0, rng.choice([1, 1, 2, 3, 7, 20]), cid, rng.randrange(1 << 30)))
+    return out
+
+
+def c05_retry_oracle(line, res):
+    r = gens.fields(res)
+    if "viol" in r and r["viol"] != "none":
+        return "retry on a fresh connection: " + r["viol"]
+    return None
+
+
 PROPS["C05"] = dict(
     kinds=[
         dict(name="pipeline", gen=c05_pipeline_gen, oracle=c05_pipeline_oracle, classify=c05_pipeline_classify,
              nontrivial=lambda l, r: "M" in r, timeout=900),
+        dict(name="pipeline_arms", gen=c05_arms_gen, oracle=c05_pipeline_oracle, compare=c05_arms_compare,
+             classify=lambda l, r: gens.fields(l).get("net", "?") + ("+reply-arm" if gens.fields(r).get("o", "").split(",")[-1][:1]
+                                                                  in ("M", "B") else "+conn-arm"),
+             nontrivial=lambda l, r: r.startswith("o="), timeout=900),
+        dict(name="pipeline_retry", gen=c05_retry_gen, oracle=c05_retry_oracle, model=False,
+             classify=lambda l, r: gens.fields(l).get("net", "?") + ("+retried" if "retried=1" in r else ""),
+             nontrivial=lambda l, r: "retried=1" in r and "viol=none" in r, timeout=600),
         dict(name="pipeline_eol", gen=c05_eol_gen, oracle=c05_eol_oracle,
              classify=lambda l, r: gens.fields(l).get("net", "?") + ("+retired" if "retired=1" in r else ""),
              nontrivial=lambda l, r: "retired=1" in r, timeout=900),
@@ -488,7 +548,10 @@ PROPS["C05"] = dict(
          "from VERIF_SEED, half over net.Pipe with TCP framing, half over a loopback UDP pair, first wire id 0 or "
          "preset near 65535 through the verif hook; replayed on the real PipelineTransport and through "
          "Pipeline.run_history; distinct = distinct case line; non-trivial = at least one exchange returned a "
-         "message; plus histories with write failures interleaved with live exchanges (a Write held inside "
+         "message; pipeline_arms: a Write that returns late, the reply delivered, the connection closed, then the select with "
+         "both arms ready, compared with both model outcomes (pl_arms_outcomes); pipeline_retry: the reused connection "
+         "dies after the server read the query, the retry on a fresh connection must return the caller's id; "
+         "plus histories with write failures interleaved with live exchanges (a Write held inside "
          "net.Conn.Write while later exchanges take ids, then failing: oversized query = the kernel's EMSGSIZE on the "
          "real datagram socket, scripted EMSGSIZE / other errors on both transports; wire ids of ALL Write calls "
          "recorded, failed ones included). pipeline_eol: >65536 sequential exchanges on one real connection. pipeline_burst: "
